@@ -68,9 +68,10 @@ func init() {
 	core.Register(&core.Check{
 		ID:    "C04",
 		Level: "exploration",
-		Rule: "seeded operation histories on ext4 volumes created by the library (1/2/4 KiB blocks, with/without journal, metadata_csum or gdt_csum, single and multi-group, start 0 / 4 KiB / 1 MiB): mkdir, create, write at offsets that extend/overlap/leave a gap, append (several steps, so extent trees grow), symlinks with targets of 1..4095 bytes incl. 59/60/61, remove, truncating open, chmod/chown/chtimes, rename (driven as a refusal), invalid calls, up to 3 open handles, fill-to-no-space/remove/refill, two directories of 150..240-character names growing block by block between file allocations (directory spanning many extents), thinned and regrown, a directory built in 2-4 extents of chosen lengths with a data file right behind each and shrunk about half a block at a time with an allocation and a full comparison after every step, the inode table used up twice with directories / symlinks and files on the last and first inode numbers of every block group and everything removed again; after every call all listings, contents, link targets and changed attributes are compared with an in-memory reference tree, live and periodically through a fresh ext4.Read of the image bytes; reading a file the library wrote must never fail, panic or stall (bounded read loop); non-trivial = history with >=1 accepted mutating call; distinct = distinct (config, executed history)",
+		Rule: "seeded operation histories on ext4 volumes created by the library (1/2/4 KiB blocks, with/without journal, metadata_csum or gdt_csum, single and multi-group, start 0 / 4 KiB / 1 MiB): mkdir, create, write at offsets that extend/overlap/leave a gap, append (several steps, so extent trees grow), symlinks with targets of 1..4095 bytes incl. 59/60/61, remove, truncating open, chmod/chown/chtimes, rename (driven as a refusal), invalid calls, up to 3 open handles, fill-to-no-space/remove/refill, two directories of 150..240-character names growing block by block between file allocations (directory spanning many extents), thinned and regrown, a directory built in 2-4 extents of chosen lengths with a data file right behind each and shrunk about half a block at a time with an allocation and a full comparison after every step, the inode table used up twice with directories / symlinks and files on the last and first inode numbers of every block group and everything removed again; after every call all listings, contents, link targets and changed attributes are compared with an in-memory reference tree, live and periodically through a fresh ext4.Read of the image bytes; reading a file the library wrote must never fail, panic or stall (bounded read loop); directed workloads: writes that start behind the end of small files on free space holding old data (gap inside the block the file owns, at its last byte, in the next block, blocks further), and single Write/append calls larger than a block group (one allocation served from several groups); non-trivial = history with >=1 accepted mutating call; distinct = distinct (config, executed history)",
 		Assumptions: []string{"rename is outside the statement for ext4 (driven only as a refusal)", "names are case-sensitive; a file with an open handle is only modified through that handle"},
 		MinSigs:   map[string]int{"quick": 30, "thorough": 400},
+		NeedMarks: []string{"single writes larger than a block group", "writes behind the end of a file on free space holding old data"},
 		CPUSec:    900,
 		Cases:     c04Cases,
 		Run:       func(c core.Case, env *core.Env) core.Result { return runExt4Case("C04", c, env) },
